@@ -260,7 +260,19 @@ class Main(Part):
             return Fraction(rng.choice([1, 1, 1, 2, 50, 1000]))
         return regime            # a fixed Fraction: equal weights
 
+    def steering(self):
+        """the fragile-state steering is only needed while the source has the rounding / stale-maximum defects
+        (flags regenerated from the headers by tools/trules/ebpps.py at the start of this run)."""
+        try:
+            import os, re
+            txt = open(os.path.join(core.LEAN, "DSGen", "Ebpps.lean")).read()
+            fl = dict(re.findall(r"def ebpps_(\w+) : Bool := (true|false)", txt))
+            return not all(fl.get(k) == "true" for k in ("mergeSetsWtMax", "clampTheta", "vanishFix"))
+        except Exception:
+            return True
+
     def one_history(self, rng, tier, nxt_item):
+        steer = self.steering()
         h = []
         sh = {}      # id -> Shadow (exact, history only)
         em = {}      # id -> Emu (binary64 bookkeeping; steering only)
@@ -300,7 +312,7 @@ class Main(Part):
             else:
                 # (bytes image of a copied sketch with no full item: serde<T>::serialize passes data() == nullptr with
                 #  num 0 to memcpy, a UBSan nonnull report outside this property; use the stream form there)
-                h.append("serde %d %s" % (s, "stream" if 0 < em[s].c < 1 else rng.choice(["bytes", "stream"])))
+                h.append("serde %d %s" % (s, "stream" if 0 < em[s].c < 1.000001 else rng.choice(["bytes", "stream"])))
 
         for _ in range(nops):
             live = sorted(sh)
@@ -308,16 +320,16 @@ class Main(Part):
                 break
             s = rng.choice(live)
             r = rng.random()
-            if em[s].fragile:
+            if steer and em[s].fragile:
                 # outside the domain where the structure is guaranteed (open findings): observe only
                 read(s)
                 continue
-            sound = [x for x in live if not em[x].fragile]
+            sound = [x for x in live if not (steer and em[x].fragile)]
             if r < p_merge and len(sound) >= 2:
                 d, s2 = rng.sample(sound, 2)
                 t1, t2 = em[d].clone(), em[s2].clone()
                 t1.merge(em[s2]); t2.merge(em[d])
-                if t1.danger or t2.danger:
+                if steer and (t1.danger or t2.danger):
                     # this merge would down-sample AFTER one of the rounding defects struck inside it: the real code then
                     # indexes past data_ (heap overflow / SEGV under ASan; see proposed_fixes/C18-merge-rounding.md)
                     upd(d)
